@@ -280,6 +280,23 @@ CHECKS["C17"] = {
     "level_note": "known finding babai-tie-cycle is reported as KNOWN-FINDING (see known_findings.txt)",
 }
 
+CHECKS["C16"] = {
+    "title": "keys and signatures interoperate with the reference implementation",
+    "rule": "PQClean (pqcrypto-falcon 0.3.0, built offline from the cargo registry) is the independent implementation. Re-framing "
+            "exactly as the property states: header 0x59/0x5A <-> 0x39/0x3A, zero padding stripped/added. Direction A (own keys: "
+            "the C05 regression seeds first, then seeds from VERIF_SEED): PQClean must import pk.to_bytes() and sk.to_bytes(); every "
+            "falcon-rust signature over 12 message shapes must be accepted by PQClean; PQClean signs with the exported secret key "
+            "and both verifiers must accept. Direction B (fresh PQClean key pairs): falcon-rust must import both keys, re-encode them "
+            "byte-identically and derive the same public key from the imported secret key; falcon-rust signatures under the imported "
+            "key must be accepted by PQClean and PQClean signatures by falcon-rust. distinct_nontrivial = distinct keys (own seeds + "
+            "reference key pairs) taken through the whole protocol.",
+    "assumptions": ["PQClean as built by pqcrypto-falcon is correct (it is the reference)", "PQClean's own randomness is not seeded: failing cases are recorded with full bytes"],
+    "legs": [{"name": "interop"}],
+    "technique": "differential monitor against an independent implementation (PQClean) in both directions, keys and signatures, with regression seeds",
+    "level_text": "Sampled over keys, messages and both sides' randomness; every exchanged object is checked by the other implementation.",
+    "level_note": "the C side runs uninstrumented: it is the oracle, not the subject",
+}
+
 NOT_APPLICABLE = {}
 
 ENGINES = [
